@@ -85,6 +85,61 @@ def unbound_reads(repo: Repo) -> list[tuple[FunctionInfo, str, int]]:
     return out
 
 
+def unbound_attributes(repo: Repo) -> list[tuple[FunctionInfo, str]]:
+    """`self.x` read in a method while no method of the class or of its (repository) bases, and no class-level statement, ever binds
+    x: AttributeError on first use.  Classes with a base outside the repository (other than object / Protocol / the builtin
+    exceptions, whose attributes are known) are skipped."""
+    cached = getattr(repo, "_unbound_attrs", None)
+    if cached is not None:
+        return cached
+    exc_attrs = {"args", "with_traceback", "add_note", "__traceback__", "__cause__", "__context__", "__class__", "__dict__", "__doc__", "__module__"}
+    out: list[tuple[FunctionInfo, str]] = []
+    for ci in repo.all_classes():
+        mro = repo.mro(ci)
+        external = False
+        for c in mro:
+            for b in c.base_names:
+                bn = b.split(".")[-1].split("[")[0]
+                if repo.find_class(bn) is None and bn not in ("object", "Protocol", "Exception", "RuntimeError", "ValueError", "KeyError", "Enum", "NamedTuple", "Generic"):
+                    external = True
+        if external:
+            continue
+        if any(b.split(".")[-1] in ("Enum", "NamedTuple") for c in mro for b in c.base_names):
+            continue
+        bound: set[str] = set(exc_attrs)
+        for c in mro + repo.subclasses(ci):
+            bound |= set(c.methods)
+            for st in c.node.body:
+                for x in ast.walk(st) if not isinstance(st, (ast.FunctionDef, ast.AsyncFunctionDef)) else []:
+                    if isinstance(x, ast.Name) and isinstance(x.ctx, ast.Store):
+                        bound.add(x.id)
+                if isinstance(st, ast.AnnAssign) and isinstance(st.target, ast.Name):
+                    bound.add(st.target.id)
+            for m in c.methods.values():
+                for x in ast.walk(m.node):
+                    if isinstance(x, ast.Attribute) and isinstance(x.ctx, (ast.Store, ast.Del)) and isinstance(x.value, ast.Name) and x.value.id in ("self", "cls"):
+                        bound.add(x.attr)
+                    if isinstance(x, ast.Call) and isinstance(x.func, ast.Name) and x.func.id == "setattr":
+                        bound.add("*")
+        if "*" in bound or any(d for d in ci.node.decorator_list):
+            continue
+        # attributes other code sets on instances of this class (`node.parent = ...`) cannot be told apart by name alone: count any store of that name
+        for m in ci.methods.values():
+            if m.is_static():
+                continue
+            seen: set[str] = set()
+            for x in ast.walk(m.node):
+                if isinstance(x, ast.Attribute) and isinstance(x.ctx, ast.Load) and isinstance(x.value, ast.Name) and x.value.id == "self" and x.attr not in bound \
+                        and not x.attr.startswith("__") and x.attr not in seen:
+                    seen.add(x.attr)
+                    stored_elsewhere = any(isinstance(y, ast.Attribute) and isinstance(y.ctx, ast.Store) and y.attr == x.attr and not (isinstance(y.value, ast.Name) and y.value.id in ("self", "cls"))
+                                           for f in repo.all_functions() for y in ast.walk(f.node))
+                    if not stored_elsewhere:
+                        out.append((m, x.attr))
+    repo._unbound_attrs = out  # type: ignore[attr-defined]
+    return out
+
+
 KEYWORD_OWNER = {"db": "C07", "dw": "C07", "dl": "C07", "pointer": "C07", "ascii": "C07", "incbin": "C07", "text": "C18", "table": "C18",
                  "include": "C16", "include_ips": "C13", "scope": "C08", "macro": "C09", "map": "C04", "if": "C10", "for": "C10"}
 
@@ -121,5 +176,10 @@ def names_rule(ctx: Ctx) -> None:
         if rel:
             hits += 1
             ctx.fail(f"{fn.where}:{name}", f"`{name}` is read but never bound in this function (nor at module level): the statement raises NameError for every input that reaches it")
+    for m, attr in unbound_attributes(ctx.repo):
+        rel = owned(ctx.prop, m.fq) or any(fnmatch.fnmatchcase(m.fq, pat) and ctx.prop in props for pat, props in EXTRA_SCOPE.items())
+        if rel:
+            hits += 1
+            ctx.fail(f"{m.where}:self.{attr}", f"`self.{attr}` is read but no method of the class (or of its bases) ever assigns it: AttributeError on the first use")
     if not hits:
-        ctx.ok("a816:locals-bound", "every name read in this property's functions is bound")
+        ctx.ok("a816:locals-bound", "every name and every own attribute read in this property's functions is bound")
